@@ -318,14 +318,61 @@ fn typed_subs_for<B: Backend>(out: &mut Vec<SubCheck>) {
     ));
 }
 
+// ---------------------------------------------------------------------------
+// the re-split tokens of c02.length-alias-splices are unauthenticated tokens too
+
+fn splice_case<B: Backend>(c: &c02::SpliceCase, acc: &mut Acc) -> R {
+    let name = B::NAME;
+    let purpose = if c.public { "public" } else { "local" };
+    let sp = c02::splice_build::<B>(c).map_err(|f| Fail::new(f.sig.replacen("C02/", "C12/", 1), f.what))?;
+    let (r, trace) = if c.public {
+        let pk = secret_key::<B>(&c.key).public_key();
+        attempt::<B, Public>(&sp.forged_payload, &sp.forged_footer, &sp.assertion, &pk, purpose, true)
+    } else {
+        let lk = local_key::<B>(&c.key);
+        attempt::<B, Local>(&sp.forged_payload, &sp.forged_footer, &sp.assertion, &lk, purpose, true)
+    };
+    crate::ensure!(
+        trace.is_empty() && r.is_err(),
+        format!("C12/{name}/{purpose}/splice/decoder-or-validator-ran"),
+        "a re-split token that was never sealed ({}; message cut at {} of {}) reached {:?} (result ok: {})",
+        c.family,
+        c.t,
+        c.len,
+        trace,
+        r.is_ok()
+    );
+    acc.eval();
+    acc.nt(hash_of(&(c.public, &c.family, c.len, c.t, c.assertion)));
+    acc.class("splice:re-split-token");
+    Ok(())
+}
+
+fn splice_subs_for<B: Backend>(out: &mut Vec<SubCheck>) {
+    out.push(SubCheck::custom(
+        format!("c12.length-alias-splices/{}", B::NAME),
+        if B::VER == model::Ver::V1 { 8 } else { 3 },
+        |acc: &mut Acc| {
+            for c in c02::splice_cases::<B>(acc.seed) {
+                acc.check(&c, |acc| splice_case::<B>(&c, acc));
+            }
+        },
+        |v: &Value, acc: &mut Acc| {
+            let c: c02::SpliceCase = serde_json::from_value(v.clone()).map_err(|e| Fail::new("HARNESS/replay-decode", format!("{e}")))?;
+            splice_case::<B>(&c, acc)
+        },
+    ));
+}
+
 pub fn def() -> PropertyDef {
     let mut subs = Vec::new();
     crate::for_backends!(B => subs_for::<B>(&mut subs));
     crate::for_backends!(B => typed_subs_for::<B>(&mut subs));
+    crate::for_backends!(B => splice_subs_for::<B>(&mut subs));
     PropertyDef {
         id: "C12",
         level: "fault_enumeration",
-        rule: "the C02 mutation catalogue (bit flips, truncations, extensions, boundary shifts, footer/assertion edits, other keys) applied to PAIRS of tokens that differ in one plaintext byte (decodable / undecodable), unsealed with a payload type and a validator that record invocations; oracle: for every failing token the trace is empty, the error is never PayloadError and its variant is the same for both pair members; footers of a structured type rewritten to other bytes with the same decoded value count as corruption too; controls: authentic token gives [decode, validate] exactly once each, a rejecting validator gives ClaimsError, an undecodable authentic payload gives PayloadError after one decode. Non-trivial iff the mutant is long enough to reach the cryptographic check; distinct by (token, class, position). The accessor clause (only unverified_footer() exposes the footer) is decided by generated compile probes in ./check C18 (catalogue class `sealed-token-field`).",
+        rule: "the C02 mutation catalogue (bit flips, truncations, extensions, boundary shifts, footer/assertion edits, other keys) applied to PAIRS of tokens that differ in one plaintext byte (decodable / undecodable), unsealed with a payload type and a validator that record invocations; oracle: for every failing token the trace is empty, the error is never PayloadError and its variant is the same for both pair members; footers of a structured type rewritten to other bytes with the same decoded value count as corruption too, and so do the re-split tokens of c02.length-alias-splices (a genuine tag on a message cut at t with the remainder moved into the footer); controls: authentic token gives [decode, validate] exactly once each, a rejecting validator gives ClaimsError, an undecodable authentic payload gives PayloadError after one decode. Non-trivial iff the mutant is long enough to reach the cryptographic check; distinct by (token, class, position). The accessor clause (only unverified_footer() exposes the footer) is decided by generated compile probes in ./check C18 (catalogue class `sealed-token-field`).",
         assumptions: vec!["footers are Vec<u8> (Footer::decode at parse time is by design and not what C12 forbids)"],
         subs,
     }
